@@ -28,7 +28,8 @@ func scaleFamiliesBuild() []*scaleFam {
 	for _, also := range [][2]string{{"a callee n frames below the function whose parameter it assigns", "C09"}, {"n pattern rules between a BEGIN and an END rule", "C07"},
 		{"a function of p parameters recursing d deep, with a parameter assigned from the recursive call", "C09"}, {"a function of p parameters recursing d deep, with a parameter assigned from the recursive call", "C20"},
 		{"a recursion d deep with e pending operators around the recursive call", "C20"}, {"a width and an argument of given lengths; two widths in a row", "C20"},
-		{"a call of n arguments whose k-th argument is itself a call", "C16"}, {"a for-in statement that walks a growing object of n keys twice", "C07"}} {
+		{"a call of n arguments whose k-th argument is itself a call", "C16"}, {"a for-in statement that walks a growing object of n keys twice", "C07"},
+		{"one name read through call paths that bind it at different distances", "C09"}} {
 		for _, f := range all {
 			if f.Name == also[0] {
 				g := *f
